@@ -545,6 +545,10 @@ def check(ctx, rep):
 
     # ------------------------------------------------------------------ R20e
     body_writer_obligations(ctx, rep, "R20e")
+    # ------------------------------------------------------------------ R20i
+    rep.rule("R20i", "inside its except clauses the connection handler only reports (log routine, traceback, attribute reads): nothing there calls "
+             "back into the protocol or the handlers, where a second exception could be raised", floor=1)
+    handler_body_obligations(ctx, rep, "R20i")
     # ------------------------------------------------------------------ R20h
     rep.rule("R20h", "a client that has gone away arrives as an exception in its handler: the server never gives SIGPIPE a disposition other than "
              "'ignore' (with the default one the write kills the worker - or, threaded, the whole server - before anything is logged)", floor=0)
@@ -787,6 +791,61 @@ def sigpipe_obligations(ctx, rep, rule="R20h"):
                 key=f"{rule}|{f.qualname}|{norm(node)[:50]}")
     if not sites:
         rep.ok(rule, f"SIGPIPE keeps the interpreter's 'ignore' disposition [{n} signal installations looked at]", "pygopherd/sighandlers.py", "", key=f"{rule}|none")
+
+
+_REPORTING_CALLS = {"GopherExceptions.log", "traceback.print_exc", "traceback.print_exception", "traceback.format_exc", "logger.log", "isinstance", "str", "repr",
+                    "type", "getattr", "hasattr", "print", "len", "bool", "int"}
+
+
+def handler_body_obligations(ctx, rep, rule="R20i"):
+    """What the connection handler does *inside* its except clauses (and its finally) is reporting only: the log routine, traceback
+    printing, reading attributes.  A call back into the protocol or the handlers from there (a lazy accessor that repeats the handler
+    look-up, a render) can raise again - that second exception leaves the connection handler and hides the one being reported."""
+    prog = ctx.prog
+    rh = ctx.func("server.GopherRequestHandler.handle")
+    if rh is None:
+        rep.fail(rule, "GopherRequestHandler.handle", detail="connection handler not found")
+        return
+    n, found = 0, []
+
+    def calls_in(nodes, depth=0, seen=()):
+        for b in nodes:
+            for c in ast.walk(b):
+                if not isinstance(c, ast.Call):
+                    continue
+                d = dotted(c.func) or norm(c.func)
+                if d in _REPORTING_CALLS or d.split(".")[-1] in ("print_exc",):
+                    yield ("ok", c, d)
+                    continue
+                g = None
+                if isinstance(c.func, ast.Attribute) and dotted(c.func.value) in ("self", "cls") and rh.cls is not None:
+                    g = prog.resolve_method(rh.cls, c.func.attr)
+                if g is None and isinstance(c.func, ast.Name) and c.func.id in rh.module.functions:
+                    g = rh.module.functions[c.func.id]  # a helper of the module
+                if g is not None and g not in seen and depth < 2:
+                    inner = list(calls_in(g.node.body, depth + 1, seen + (g,)))
+                    bad = [x for x in inner if x[0] == "bad"]
+                    yield ("bad", c, f"{d}() -> {bad[0][2]}") if bad else ("ok", c, d)
+                    continue
+                yield ("bad", c, d)
+
+    for tr in [t for t in ast.walk(rh.node) if isinstance(t, ast.Try)]:
+        for h in tr.handlers:
+            for kind, c, d in calls_in(h.body):
+                n += 1
+                if kind == "bad" and not any(catches(h2, "Exception") for tr2 in enclosing_tries(h, c) for h2 in tr2.handlers):
+                    found.append((c, d, h))
+    seen = set()
+    for c, d, h in found:
+        if norm(c) in seen:
+            continue
+        seen.add(norm(c))
+        rep.add(rule, f"{rh.qualname}: {norm(c)[:60]} inside `except {norm(h.type) if h.type is not None else ''}`", False, ctx.where(rh, c),
+                f"`{d}` is called while the failure is being reported: if it raises (a handler look-up repeated for a selector that has none, a write to the "
+                "dead connection) that exception leaves the connection handler and the failure itself is never logged under its own class",
+                key=f"{rule}|{norm(c)[:50]}")
+    if not found:
+        rep.ok(rule, f"the except clauses of the connection handler only report [{n} calls looked at]", ctx.where(rh), "", key=f"{rule}|none")
 
 
 class _PathObj:
